@@ -104,7 +104,8 @@ def apply_defect(rng, now, base, name_spec):
 
 
 SCOPESETS = [["read", "write"], ["read"], ["write"], ["read", "write", "extra"], ["Read"], ["relay:admin"], ["read ", "writer"],
-             ["write", "relay:stats"], ["host"], ["read", "read"]]
+             ["write", "relay:stats"], ["host"], ["read", "read"], ["write", "write"], ["read", "read", "read"], ["read", "write", "read"],
+             ["write", "read", "write", "write"]]
 ADMIN_SCOPES = [["relay:admin"], ["relay:admin", "read"], ["relay:admin "], ["Relay:Admin"], ["relay:admins"], ["admin"],
                 ["relay:stats"], ["read", "write"], ["relay:stats", "relay:admin"]]
 WS_PATHS = [("/session/{t}", True), ("/session/{t}/", True), ("/shell/{t}", False), ("/{t}", False), ("/session/{t}!x", True),
@@ -186,14 +187,21 @@ class RelayMode(vlib.Mode):
             tops = rng.sample(TOPICS[:3], rng.choice([1, 2]))
             for _ in range(rng.choice([2, 3, 4, 5])):
                 t, b = rng.choice(tops), rng.choice(BIDS)
-                sc = rng.choice([["read", "write"], ["read", "write"], ["read"], ["write"], ["write", "x"], ["read", "relay:stats"]])
+                sc = rng.choice([["read", "write"], ["read", "write"], ["read"], ["write"], ["write", "x"], ["read", "relay:stats"],
+                                 ["read", "read"], ["write", "write"], ["read", "read", "read"]])
                 case.append(f"session {tok(now, topic=sval(t), bid=sval(b), scopes=lval(sc))} {hx(t)}")
                 case.append(f"ws {hx('/session/' + t)} c{len(st['codes'])}")
                 st["codes"].append(t); st["joined"] = st.get("joined", 0) + 1
         steps = rng.choice([6, 10, 16, 24])
+        used = []     # request lines issued so far with a token that was built valid: replayed verbatim later (possibly after the clock moved)
         for _ in range(steps):
             r = rng.random()
             now = st["now"]
+            if used and rng.random() < 0.07:
+                line = rng.choice(used)
+                case.append(line)
+                if line.split(" ")[0] in ("deny", "allow"): case.append("sync")
+                continue
             if r < 0.30:      # session request, valid or with one/two defects
                 t, b = rng.choice(TOPICS[:3]), rng.choice(BIDS)
                 base = dict(topic=sval(t), bid=sval(b), scopes=lval(rng.choice(SCOPESETS[:4] if rng.random() < 0.7 else SCOPESETS)))
@@ -226,6 +234,8 @@ class RelayMode(vlib.Mode):
                     for q in range(rng.choice([1, 1, 2, 4, 9])):
                         st["nconn"] += 1
                         payload = bytes(rng.randrange(256) for _ in range(rng.choice([0, 1, 3, 20, 200])))
+                        if rng.random() < 0.08:
+                            case.append(f"send n{w} - {rng.choice([1, 2])}")      # a zero-length websocket frame (legal)
                         case.append(f"send n{w} {hx(record(w, st['nconn'], payload))} {rng.choice([1, 2])}")
                     case.append("sync")
             elif r < 0.72:    # deny / allow
@@ -238,16 +248,19 @@ class RelayMode(vlib.Mode):
                                                                    sval("9223372036854775808"), sval("+7"), "s-", sval("1e3"), sval("-9223372036854775808"),
                                                                    sval("-9223372036854775807"), sval("9223372036854775807"), sval("-9223372036854775809")])
                 case.append(f"{verb} {cred} {bid} {exp}")
+                if cred == admin(): used.append(case[-1])
                 if verb == "deny" and cred.startswith("alg=") and "relay:admin".encode().hex() in cred and bid.startswith("s") and bid != "s-":
                     st["denied"].add(unhx(bid[1:]).decode())
                 case.append("sync")
             elif r < 0.80:
                 cred = admin() if rng.random() < 0.6 else tok(now, scopes=lval(rng.choice(ADMIN_SCOPES)), topic="a", prefix="a", bid="a")
                 case.append(f"{rng.choice(['listdeny', 'listallow'])} {cred}")
+                if cred == admin(): used.append(case[-1])
             elif r < 0.87:
                 cred = stats() if rng.random() < 0.6 else rng.choice([tok(now, scopes=lval(rng.choice(ADMIN_SCOPES)), topic="a", prefix="a", bid="a"),
                                                                       stats(sig="tampered"), stats(exp="a"), "-", tok(now)])
                 case.append(f"status {cred}")
+                if cred == stats(): used.append(case[-1])
             elif r < 0.93:
                 st["now"] += rng.choice([1, 5, 29, 30, 31, 100, 3700, -5, -1500])   # the clock may also be set back
                 case.append(f"now {st['now']}")
